@@ -11,6 +11,7 @@
  */
 
 #include <algorithm>
+#include <cstring>
 #include <functional>
 #include <map>
 #include <utility>
@@ -626,7 +627,16 @@ i_mep i_mep::cse() const
         return a.sym->opcode() < b.sym->opcode();
 
       if (a.sym->terminal())
-        return terminal::cast(a.sym)->parametric() ? a.par < b.par : false;
+      {
+        if (!terminal::cast(a.sym)->parametric())
+          return false;
+
+        // Two constants are the same constant only when they have the same
+        // object representation (what `pack` hashes): `+0.0` and `-0.0`
+        // compare equal but yield different signatures and outputs. The
+        // order of the bytes is a strict weak ordering also for NaNs.
+        return std::memcmp(&a.par, &b.par, sizeof(a.par)) < 0;
+      }
 
       // A strict weak ordering is required by `std::map`: arguments are
       // compared lexicographically.
